@@ -285,6 +285,66 @@ fn cli_case(ctx: &Ctx, st: &mut Stats, text: &str) {
     }
 }
 
+/// `-m` combined with `-c X`: the model is taken of the retained diagram R (what `-c X -t` prints).
+/// Two runs of the real binary are related: the single satisfying row of `-m -c X -t` must be a
+/// satisfying cube of the function printed by `-c X -t`, and it exists iff that function is satisfiable.
+fn cli_model_with_retain(ctx: &Ctx, st: &mut Stats, text: &str) {
+    let Ok(ast) = refsyn::parse_text(text) else { return };
+    let Ok((names, _want)) = refsem::eval_formula(&ast) else { return };
+    let free = ast.free_names();
+    let bin = ctx.bin("rsbdd");
+    let n = names.len() as u32;
+    let union_of_true_rows = |table: &cli::Table| -> Option<Tt> {
+        let mut u = Tt::constant(n, false);
+        for (cells, res) in &table.rows {
+            if !*res {
+                continue;
+            }
+            let mut cover = Tt::constant(n, true);
+            for (h, c) in table.header.iter().zip(cells.iter()) {
+                let i = names.iter().position(|x| x == h)? as u32;
+                match c {
+                    cli::Cell::True => cover = cover.and(&Tt::var(n, i)),
+                    cli::Cell::False => cover = cover.and(&Tt::var(n, i).not()),
+                    cli::Cell::Any => {}
+                }
+            }
+            u = u.or(&cover);
+        }
+        Some(u)
+    };
+    for flt in ["t", "f"] {
+        let run = |extra: &[&str]| {
+            let mut args = vec![format!("--evaluate={}", text), "-c".to_string(), flt.to_string(), "-t".to_string()];
+            args.extend(extra.iter().map(|s| s.to_string()));
+            cli::run(&bin, &args, None, None, Some((20_000_000, 10_000)), Duration::from_secs(60))
+        };
+        let (a, b) = (run(&[]), run(&["-m"]));
+        st.evals += 1;
+        st.bump("cli[-m -c]");
+        if a.timed_out || b.timed_out || a.budget_exceeded() || b.budget_exceeded() || !a.ok() || !b.ok() {
+            st.bump("cli_out_of_budget(not judged)");
+            continue;
+        }
+        let (sa, sb) = (a.stdout_str(), b.stdout_str());
+        let (la, lb): (Vec<&str>, Vec<&str>) = (sa.lines().collect(), sb.lines().collect());
+        let (Ok((ta, _)), Ok((tb, _))) = (cli::parse_table(&la), cli::parse_table(&lb)) else { continue };
+        if ta.header.iter().chain(tb.header.iter()).any(|h| !free.contains(h)) {
+            continue;
+        }
+        let (Some(r), Some(m)) = (union_of_true_rows(&ta), union_of_true_rows(&tb)) else { continue };
+        let true_rows = tb.rows.iter().filter(|x| x.1).count();
+        let case = json!({"kind": "cli-retain", "text": text});
+        if true_rows != usize::from(!r.is_false()) {
+            st.violate("c07.cli", "C07:cli:-m-c:true-row-count".into(), format!("rsbdd -e `{}` -c {} -m -t prints {} satisfying rows; the retained diagram (-c {} -t) is {}\n{}", text, flt, true_rows, flt, if r.is_false() { "unsatisfiable" } else { "satisfiable" }, sb), case);
+        } else if !m.leq(&r) {
+            st.violate("c07.cli", "C07:cli:-m-c:row-not-a-model".into(), format!("rsbdd -e `{}` -c {} -m -t: the model row covers an assignment that `-c {} -t` prints as False\n--- -c {} -t\n{}--- -c {} -m -t\n{}", text, flt, flt, flt, sa, flt, sb), case);
+        } else if !r.is_const() {
+            st.nt.insert(mix(util::hash_str(text), util::hash_str(flt) ^ 0x77));
+        }
+    }
+}
+
 fn cli_job(ctx: &Ctx, job: usize, iters: u64) -> Stats {
     let mut st = Stats::new();
     let mut rng = Rng::stream(ctx.seed, "C07.cli", job as u64);
@@ -294,6 +354,7 @@ fn cli_job(ctx: &Ctx, job: usize, iters: u64) -> Stats {
         let ast = gen::gen_ast(&mut rng, &cfg);
         let text = gen::render(&ast, &mut rng, Style::Plain);
         cli_case(ctx, &mut st, &text);
+        cli_model_with_retain(ctx, &mut st, &text);
     }
     st
 }
@@ -316,7 +377,7 @@ pub fn run(ctx: &Ctx) -> (Stats, Spec) {
         cli_case(ctx, &mut st, t);
     }
     let spec = Spec {
-        rule: "every Boolean function over 3 and 4 variables (two label families) plus random functions over 5-8 sparse labels with densities biased towards sparse (else-arms); a third of all diagrams are handed over as plain unshared nodes the environment did not build; for each: model() false iff unsat, cube shape, literals within support, model => f; infer(model, v) and infer(f, v) for every variable and one unmentioned variable; CLI: generated formulas through `rsbdd -m -t`, `-m -t -ft`, `-m -v`. distinct = (table, family) resp. (text, mode); non-trivial = satisfiable non-constant function (CLI: >= 2 free variables).".into(),
+        rule: "every Boolean function over 3 and 4 variables (two label families) plus random functions over 5-8 sparse labels with densities biased towards sparse (else-arms); a third of all diagrams are handed over as plain unshared nodes the environment did not build; for each: model() false iff unsat, cube shape, literals within support, model => f; infer(model, v) and infer(f, v) for every variable and one unmentioned variable; CLI: generated formulas through `rsbdd -m -t`, `-m -t -ft`, `-m -v`, and `-m -c t|f -t` related to `-c t|f -t` (the model row must be a satisfying cube of the retained diagram). distinct = (table, family) resp. (text, mode); non-trivial = satisfiable non-constant function (CLI: >= 2 free variables).".into(),
         assumptions: vec!["infer on a variable the diagram does not mention counts as forced only when the diagram is unsatisfiable".into()],
         floors: vec![
             ("model_calls".into(), 60_000, "model never exercised".into()),
@@ -324,6 +385,7 @@ pub fn run(ctx: &Ctx) -> (Stats, Spec) {
             ("infer_forced_true".into(), 1_000, "infer never answered for a forced variable".into()),
             ("foreign_diagrams".into(), 10_000, "diagrams not built by the environment never exercised".into()),
             ("cli[-m -t]".into(), 50, "CLI never exercised".into()),
+            ("cli[-m -c]".into(), 50, "-m with -c never exercised".into()),
             ("distinct_nontrivial".into(), 10_000, "too few non-trivial cases".into()),
         ],
     };
@@ -331,6 +393,10 @@ pub fn run(ctx: &Ctx) -> (Stats, Spec) {
 }
 
 pub fn replay(ctx: &Ctx, _monitor: &str, case: &Value, st: &mut Stats) {
+    if case.get("kind").and_then(|k| k.as_str()) == Some("cli-retain") {
+        cli_model_with_retain(ctx, st, case.get("text").and_then(|t| t.as_str()).unwrap_or("false"));
+        return;
+    }
     if case.get("kind").and_then(|k| k.as_str()) == Some("cli") {
         cli_case(ctx, st, case.get("text").and_then(|t| t.as_str()).unwrap_or("false"));
         return;
